@@ -603,7 +603,7 @@ def run(ctx):
   small2 = [s for s in small if G.count_points(s) <= 2]
   small3 = [s for s in small if G.count_points(s) == 3]
   ctr = [0]
-  n2, n3, nr = ctx.scale(8, 700), ctx.scale(8, 900), ctx.scale(14, 900)
+  n2, n3, nr = ctx.scale(8, 400), ctx.scale(8, 500), ctx.scale(14, 600)
   chosen = [decorate(rng, small2[i], ctr) for i in sorted(rng.sample(range(len(small2)), n2))] + \
            [decorate(rng, small3[i], ctr) for i in sorted(rng.sample(range(len(small3)), n3))]
   rand_specs = []
